@@ -5,7 +5,6 @@ package bigbuff
 import (
 	"context"
 	"fmt"
-	"reflect"
 	"sync"
 	"sync/atomic"
 	"time"
@@ -70,7 +69,7 @@ func chanDoGetMode(c *Channel, timeout time.Duration, quiescent bool) []int {
 	if r.err == nil {
 		return []int{0, r.v.(int)}
 	}
-	if r.err == context.Canceled && c.ctx.Err() == nil {
+	if r.err == context.Canceled && (*fld[context.Context](c, "ctx")).Err() == nil {
 		return []int{1}
 	}
 	if r.err == context.Canceled {
@@ -99,7 +98,7 @@ func chanDoGetFlip(c *Channel) []int {
 	if err == nil {
 		return []int{0, v.(int)}
 	}
-	if err == context.Canceled && c.ctx.Err() == nil {
+	if err == context.Canceled && (*fld[context.Context](c, "ctx")).Err() == nil {
 		return []int{1} // found nothing on its single attempt, then saw the cancellation
 	}
 	return []int{2}
@@ -414,12 +413,16 @@ func init() {
 				src <- 100*i + k
 			}
 			parent, cancelParent := context.WithCancel(context.Background())
-			// field for field what NewChannel does, with the hook around the Channel's own context
-			c := &Channel{valid: true, source: reflect.ValueOf(src), done: make(chan struct{}), rate: time.Millisecond}
-			inner, cancel := context.WithCancel(parent)
-			w := &winCtx{Context: inner, cancelParent: cancelParent, done: c.done}
-			c.ctx, c.cancel = w, cancel
-			go c.cleanup()
+			// the hook goes around the Channel's own context (the watcher goroutine waits on the same underlying context
+			// whichever of the two values it reads)
+			c, cerr := NewChannel(parent, time.Millisecond, src)
+			if cerr != nil {
+				h.line("MONITOR C13 window case %d: NewChannel failed: %v", i, cerr)
+				return
+			}
+			pctx := fld[context.Context](c, "ctx")
+			w := &winCtx{Context: *pctx, cancelParent: cancelParent, done: *fld[chan struct{}](c, "done")}
+			*pctx = w
 			pre := h.rng.Intn(3)
 			for k := 0; k < pre; k++ {
 				if _, err := c.Get(context.Background()); err != nil {
